@@ -622,3 +622,19 @@ package argmapper
 //@   ensures result != nil && fresh(result)
 //@   assigns Value, valueInternal
 //@   modifies nothing
+
+// ---------------------------------------------------------------- call.go: callGraph (first: frame level), Call
+//@ func (*Func).callGraph
+//@   requires args != nil
+//@   ensures  planning == old(planning) && failed == old(failed) && nexec == old(nexec)
+//@   assigns  graph.Graph, Outer, Inner, HashM, VisitM, []graph.Vertex, [][]graph.Vertex, valueVertex, typedArgVertex, typedOutputVertex, funcVertex, rootVertex, Value, valueInternal, []*Value, ErrArgumentUnsatisfied, []*Func, []interface{}, reported, dvisited, kpos, spos, fin, frozen, cnt
+//@   modifies nothing
+
+// Call: ghost history starts afresh (failed = nil); the three early exits and the final execution
+//@ func (*Func).Call
+//@   requires vsWF(f.input)
+//@   ensures  [resolution-failure-has-no-outputs] imp(result.buildErr != nil, len(result.out) == 0)
+//@   ensures  [target-not-executed-on-error] imp(result.buildErr != nil, f.execs == old(f.execs) || failed == nil)
+//@   ensures  [failing-converter-error-returned-verbatim] imp(failed != nil && result.buildErr != nil, result.buildErr == failed)
+//@   assigns  *
+//@   before "builder, buildErr := f.argBuilder(opts...)" set failed = nil
